@@ -773,8 +773,8 @@ func ruleC17NoWrongTarget(c *Ctx) {
 					lo, up := boundsFrom(guardsOf(ret), ret.Results[0], isLenParam)
 					allLower = allLower && lo
 					allUpper = allUpper && up
-				} else if !ok {
-					// a non-constant second result: success cannot be told apart
+				} else if !ok && !knownNonNilError(ret, ret.Results[1]) {
+					// a second result that may or may not report success: success cannot be told apart
 					allLower, allUpper = false, false
 				}
 			})
@@ -1373,12 +1373,14 @@ func ruleC17KeysFromSegments(c *Ctx) {
 			sParam = p
 		}
 	}
-	core.EachInstr(w, func(i ssa.Instruction) {
+	c.pointerFieldLookup(rule) // a role anchor: not part of the walker's family
+	for _, fi := range c.familyInstrs(w) {
+		i := fi.I
 		var key ssa.Value
 		what := ""
 		switch x := i.(type) {
 		case *ssa.Lookup:
-			if _, isMap := x.X.Type().Underlying().(*types.Map); isMap && tString(x.Index.Type()) {
+			if _, isMap := x.X.Type().Underlying().(*types.Map); isMap && tString(x.Index.Type()) && len(fi.Path) == 0 {
 				key, what = x.Index, "a map lookup"
 			}
 		case *ssa.Call:
@@ -1398,14 +1400,14 @@ func ruleC17KeysFromSegments(c *Ctx) {
 			}
 		}
 		if key == nil {
-			return
+			continue
 		}
 		n++
-		ok := fromSegments(key)
+		ok := fromSegments(upValue(key, fi.Path))
 		_ = sParam
 		c.R.Check(ok, rule, fmt.Sprintf("key#%d:%s", n, what), c.pos(i), "the selector of "+what+" is an element of the parsed (unescaped) segment list",
 			"the selector of "+what+" is not an element of the parser's segment list (e.g. a piece of the raw, still escaped pointer text): '~0'/'~1' in a key would be matched literally and a pointer could select a key spelled like the escaped form of another")
-	})
+	}
 	c.R.Floor(rule, "selectors in the pointer walker", n, 3)
 }
 
@@ -1479,4 +1481,25 @@ func boundsFrom(guards []guardAtom, n ssa.Value, isLen func(ssa.Value) bool) (lo
 		}
 	}
 	return
+}
+
+// knownNonNilError: v, returned at ret, is a freshly built error or is known to be non-nil there.
+func knownNonNilError(ret *ssa.Return, v ssa.Value) bool {
+	for _, g := range guardsOf(ret) {
+		if x, k, equal, ok := eqConst(g); ok && k.IsNil() && !equal && x == v {
+			return true
+		}
+	}
+	for _, src := range traceSources(v) {
+		call, ok := src.(*ssa.Call)
+		if !ok {
+			return false
+		}
+		switch core.CalleeKey(&call.Call) {
+		case "fmt.Errorf", "errors.New":
+		default:
+			return false
+		}
+	}
+	return true
 }
